@@ -167,7 +167,9 @@ static void exhaustive() {
     g_stats.cls("byte_alphabet_full_lattice_max_len", L);
     // (ii) tokens
     std::vector<std::string> tok = {"/", ".", "\\", "a", "A", "%2f", "%5c", "%2e", "%00", "%25", "%u002f", "%u0000", "%uff0f", "%u00c0", "%ufff5", "%c0%af", "%e0%80%af", "%f0%80%80%af",
-                                    "\xef\xbc\x8f", "\xef\xbf\xb5", "\x80", "\xc3", "\xe2\x82", "%", "%2", "%u", "%u00", "%u002", "%zz", "%uzzzz", std::string(1, '\0'), "..", "/./", "/../"};
+                                    "\xef\xbc\x8f", "\xef\xbf\xb5", "\x80", "\xc3", "\xe2\x82", "%", "%2", "%u", "%u00", "%u002", "%zz", "%uzzzz", std::string(1, '\0'), "..", "/./", "/../",
+                                    // dots that exist only after a later stage (overlong / full-width / %u forms): the order of the pipeline stages shows on these
+                                    "%c0%ae", "\xc0\xae", "%uff0e", "\xef\xbc\x8e", "%u002e"};
     int T = (int)A.num("tokens", A.thorough() ? 4 : 3);
     if (!enumerate(tok, T, [&](const std::string &s, uint64_t code, int) { return path_all_cfgs(s, code + 1000000007ULL); })) return;
     g_stats.cls("token_sequences_max_tokens", T);
@@ -234,6 +236,22 @@ static void personalities() {
     });
 }
 
+// longer token sequences than the exhaustive level reaches, over the whole configuration lattice
+static void token_random() {
+    int cases = A.thorough() ? 400000 : 40000;
+    static const std::vector<std::string> tok = {"/", "/", ".", "..", "\\", "a", "B", "%2f", "%5c", "%2e", "%2E", "%00", "%25", "%252e", "%u002f", "%u002e", "%u005c", "%uff0f", "%uff0e", "%uff3c", "%u2215", "%u0261", "%uff41", "%c0%af", "%c0%ae", "%c1%9c", "%e0%80%af", "%e0%80%ae",
+                                                 "\xc0\xaf", "\xc0\xae", "\xef\xbc\x8f", "\xef\xbc\x8e", "\xef\xbc\xbc", "\xc4\x87", "\x80", "\xc3", "%", "%2", "%u00", "%zz", "/./", "/../", "//", std::string(1, '\0'), "%u0000", "c:", ";p"};
+    rcx::run("path_token_random", vc::mix(A.seed * 139 + A.shard), cases, 64, [&]() -> std::optional<rcx::Fail> {
+        int n = rcx::range(1, 9); std::string s; if (rcx::chance(3, 4)) s = "/"; for (int i = 0; i < n; i++) s += rcx::pick(tok);
+        int code = rcx::range(0, 767);
+        std::string text = case_text("path", code, s); vc::set_current_case(text);
+        auto r = check_path(s, g_path_cfgs[(size_t)code]);
+        if (!rcx::shrinking()) { g_stats.evaluations++; g_stats.cls("token_random"); if (nontrivial(s)) g_stats.nt(vc::fnv1a(s, code)); g_stats.sample_sparse("cfg " + std::to_string(code) + " \"" + vc::esc(s) + "\"", g_stats.evaluations + 5); }
+        if (!r.first.empty()) { std::string sig = "C12:" + r.first; if (A.is_known(sig)) { if (!rcx::shrinking()) g_stats.attributed[sig]++; return {}; } return rcx::Fail{sig, text, "\"" + vc::esc(s) + "\": " + r.second}; }
+        return {};
+    });
+}
+
 static int replay(const std::string &path) {
     std::string f = vc::read_file(path); char kind[16] = {0}; int code = 0; static char hx[1 << 16];
     hx[0] = 0;
@@ -249,7 +267,7 @@ static int replay(const std::string &path) {
 }
 
 int main(int argc, char **argv) {
-    A = vc::parse_args(argc, argv);
+    A = vc::parse_args(argc, argv); const bool all_modes = A.mode.empty() || A.mode == "c01"; (void)all_modes; // --mode c01: every campaign, only sanitizer reports count
     g_basecfg = htp_config_create();
     g_connp = htp_connp_create(g_basecfg); htp_connp_open(g_connp, "1.1.1.1", 1, "2.2.2.2", 80, NULL);
     g_tx = htp_connp_tx_create(g_connp);
@@ -259,9 +277,10 @@ int main(int argc, char **argv) {
     else {
         g_stats.init(A); g_stats.max_samples = 8; vc::install_crash_capture();
         for (auto p : refdec::PINS) g_stats.notes.push_back(std::string("pin: ") + p);
-        if (A.mode.empty() || A.mode == "exhaustive") exhaustive();
-        if (g_stats.failures.empty() && (A.mode.empty() || A.mode == "random")) random_bytes();
-        if (g_stats.failures.empty() && (A.mode.empty() || A.mode == "pers")) personalities();
+        if (all_modes || A.mode == "exhaustive") exhaustive();
+        if (g_stats.failures.empty() && (all_modes || A.mode == "random")) random_bytes();
+        if (g_stats.failures.empty() && (all_modes || A.mode == "tokens")) token_random();
+        if (g_stats.failures.empty() && (all_modes || A.mode == "pers")) personalities();
         g_stats.write(); rc = g_stats.failures.empty() ? 0 : 1;
     }
     htp_tx_set_config(g_tx, g_basecfg, HTP_CONFIG_SHARED);
